@@ -104,7 +104,12 @@ type timerKey struct{ p *value }
 
 func initTimeExternals() {
 	for k, v := range map[string]externalFn{
-		"time.Now": func(fr *frame, a []value) value { return fr.i.timeValue(fr.i.now) },
+		"time.Now": func(fr *frame, a []value) value {
+			// a strictly increasing clock: two readings never coincide (as with a nanosecond
+			// wall clock); larger steps are taken by the harness through rt.SetNow
+			fr.i.now = fr.i.timeAddNs(fr.i.now, 1)
+			return fr.i.timeValue(fr.i.now)
+		},
 		"time.Unix": func(fr *frame, a []value) value {
 			i := fr.i
 			sec, nsec := i.toInt64(a[0]), i.toInt64(a[1])
@@ -293,11 +298,10 @@ func extSetNow(fr *frame, args []value) value {
 		panic(abortPath{Status: "assume-failed"})
 	}
 	nt := vtime{i.i64(token.ADD, sec, unixToInternal), nsec}
-	// the clock never goes back
-	if !i.timeLE(i.now, nt) {
-		panic(abortPath{Status: "assume-failed"})
+	// the clock never goes back: an instant that is not later than the present leaves it alone
+	if i.timeLE(i.now, nt) {
+		i.now = nt
 	}
-	i.now = nt
 	i.fireTimers()
 	return nil
 }
